@@ -298,9 +298,72 @@ def build_line(c):
     return 'build keepalive d=%s' % o('d')
 
 
+ERR_CODES = [1, 2, 3, 4, 257, 258, 513, 514, 515, 516, 4294967295]
+ERR_TEXTS = ['', 'x', 'no such route', 'déjà vu', '日本語', 'boom \U0001F4A5', 'a' * 300, 'line\nbreak\ttab', '%s %d {}']
+OTHER_EXC = ['RuntimeError', 'ValueError', 'KeyError', 'OSError13', 'Exception0', 'Custom', 'TimeoutError', 'Duck']
+
+
+def gen_errconv(rng):
+    c = {'kind': 'errconv', 'sid': rng.choice([1, 2, 3, 2 ** 31 - 1, FR.rint(rng, 31) or 1]), 'text': rng.choice(ERR_TEXTS)}
+    if rng.random() < 0.5:
+        c.update(exc='protocol', code=rng.choice(ERR_CODES), none=rng.random() < 0.2)
+    else:
+        c.update(exc=rng.choice(OTHER_EXC))
+    return c
+
+
+def _make_exc(c):
+    from rsocket.error_codes import ErrorCode
+    from rsocket.exceptions import RSocketProtocolError
+    t = c['text']
+    if c['exc'] == 'protocol':
+        return RSocketProtocolError(ErrorCode(c['code']), data=None if c['none'] else t)
+    if c['exc'] == 'OSError13':
+        return OSError(13, t)
+    if c['exc'] == 'Exception0':
+        return Exception()
+    if c['exc'] == 'Custom':
+        class AppFailure(Exception):
+            def __str__(self):
+                return 'app failure: ' + self.args[0]
+        return AppFailure(t)
+    if c['exc'] == 'Duck':
+        # an application's own error type that happens to have attributes named like the protocol error's (an upstream client's error class)
+        class UpstreamError(Exception):
+            error_code = 'E42'
+            data = {'detail': 'upstream'}
+        return UpstreamError(t)
+    import builtins
+    return getattr(builtins, c['exc'])(t)
+
+
+def impl_errconv(c):
+    from rsocket import frame as F
+    from rsocket.exceptions import RSocketProtocolError
+    exc = _make_exc(c)
+    fr = F.exception_to_error_frame(c['sid'], exc)
+    out = {'str': str(exc).encode('utf-8').hex(), 'dump': FR.dump(fr)}
+    one = fr.serialize()
+    out['hex'] = one.hex()
+    back = F.parse_or_ignore(one)
+    out['dec'] = FR.dump(back)
+    got = F.error_frame_to_exception(back)
+    if isinstance(got, RSocketProtocolError):
+        out['peer'] = 'protocol:%d %s' % (int(got.error_code), FR.hx((got.data or '').encode('utf-8')))
+    else:
+        out['peer'] = '%s %s' % ('runtime' if type(got) is RuntimeError else type(got).__name__, FR.hx(str(got).encode('utf-8')))
+    return out
+
+
+def errconv_line(c, obs):
+    if c['exc'] == 'protocol':
+        return 'errconv sid=%d kind=protocol code=%d text=%s' % (c['sid'], c['code'], 'N' if c['none'] else (c['text'].encode('utf-8').hex() or '-'))
+    return 'errconv sid=%d kind=other text=%s' % (c['sid'], obs['str'] or '-')       # the model is given str(exception), as the code is
+
+
 class C02(Prop):
     id = 'C02'
-    lean_modules = ['RSocketModel.Props.C02', 'RSocketModel.Props.C02Builders']
+    lean_modules = ['RSocketModel.Props.C02', 'RSocketModel.Props.C02Builders', 'RSocketModel.Props.C02Errors']
     technique = 'Lean 4 proof (per-constructor round-trip over a front-consuming decoder mirroring unpack_from/slice semantics; frame builders regenerated from the source AST by a translator and proved equal to the model) + differential correspondence on both backends'
     level_text = ('c02_decode_encode (decode(encode f) = canon f for every legal value of all 14 types), c02_reencode, c02_partial_write, '
                   'c02_length_prefix_exact, c02_metadata_push_nonzero_ignored are kernel-checked; c02_constants ties the model literals to the regenerated '
@@ -308,7 +371,7 @@ class C02(Prop):
                   'against serialize(), serialize_with_frame_size_header, the writes of TransportTCP.send_frame and parse_or_ignore, on valid and malformed '
                   'input, with cbitstruct present and blocked. rsocket/frame_builders.py is *translated* (AST -> Gen/Builders.lean, every run): c02_builders_match_source (the hand-written rule build is the meaning of the regenerated '
                   'definitions over the regenerated __init__ defaults), c02_builder_payload_intact (what the application hands to any builder - each payload part None, empty or bytes - is what the peer decodes, on the stream named, '
-                  'never flagged IGNORE/FOLLOWS), c02_payload_builder_flags / _next_on_content / _size, c02_builder_defaults, c02_setup_builder_millis; builder calls are also run against the real functions.')
+                  'never flagged IGNORE/FOLLOWS), c02_payload_builder_flags / _next_on_content / _size, c02_builder_defaults, c02_setup_builder_millis; builder calls are also run against the real functions. Errors.lean models exception_to_error_frame / error_frame_to_exception: c02_error_roundtrip (the exception answered on a stream reaches the requester with the same code and text, on that stream; a non-protocol exception as RuntimeError), c02_error_kinds_kept, c02_error_frame_on_its_stream; run against the real functions on protocol errors of every code and on application exceptions of several shapes.')
     level_note = ('Trusted: Lean kernel + standard axioms; struct/cbitstruct semantics as transcribed (failing read vs clipping slice); out-of-domain regions '
                   '(signed MIME length >= 128, RESUME longer than its fields, reserved stream-id bit) are only robustness-checked; KEEPALIVE/ERROR/... carry no metadata section.')
     design_ref = '§5 C02'
@@ -355,6 +418,9 @@ class C02(Prop):
         # calls of the frame builders (rsocket/frame_builders.py): from the application's Payload to a frame value and its bytes
         for _ in range(1500 if tier == 'quick' else 40000):
             out.append(gen_call(rng))
+        # exceptions answered on a stream: exception_to_error_frame -> bytes -> error_frame_to_exception
+        for _ in range(500 if tier == 'quick' else 12000):
+            out.append(gen_errconv(rng))
         for _ in range(n):
             spec = FR.gen_spec(rng)
             try:
@@ -383,6 +449,8 @@ class C02(Prop):
             return impl_reuse(case)
         if case['kind'] == 'build':
             return impl_build(case)
+        if case['kind'] == 'errconv':
+            return impl_errconv(case)
         here = {'enc': [impl_encode(s) for s in case['specs']], 'dec': [impl_decode(bytes.fromhex(b)) for b in case['blobs']]}
         p = subprocess.run([sys.executable, '-c', _CHILD % (REPO, VERIF)], input=json.dumps({'specs': case['specs'], 'blobs': case['blobs']}),
                            stdout=subprocess.PIPE, stderr=subprocess.PIPE, text=True, timeout=600,
@@ -408,6 +476,8 @@ class C02(Prop):
             return ['dec ' + (case['blob'] or '-')]
         if case['kind'] == 'build':
             return [build_line(case)]
+        if case['kind'] == 'errconv':
+            return [errconv_line(case, obs)]
         if case['kind'] == 'reuse':
             # the model encodes the *value* the object holds (as dumped from the object's fields)
             d = obs['dump']
@@ -456,6 +526,12 @@ class C02(Prop):
                 return 'frame built by to_%s_frame differs: impl %s / model %s' % (case['b'], obs['dump'][:200], parts[0][:200])
             if obs['hex'] != parts[1]:
                 return 'bytes of the frame built by to_%s_frame differ: impl %s / model %s' % (case['b'], obs['hex'][:120], parts[1][:120])
+        elif case['kind'] == 'errconv':
+            parts = answers[0].split(' | ')
+            if len(parts) != 3:
+                return 'model cannot read the exception: %s' % answers[0][:80]
+            if [obs['dump'], obs['hex'], obs['peer']] != parts:
+                return 'exception -> ERROR frame -> exception: impl %s / model %s' % ([obs['dump'][:120], obs['hex'][:80], obs['peer'][:80]], [x[:120] for x in parts])
         elif case['kind'] == 'dec':
             if answers[0] == 'OUT-OF-DOMAIN':
                 return None
@@ -530,6 +606,19 @@ class C02(Prop):
                 bad = 'no sent_future on a one-way frame'
             if bad:
                 fails.append({'signature': 'builder:' + b, 'what': 'to_%s_frame(%s): the peer %s' % (b, build_line(case)[6:160], bad)})
+        elif case['kind'] == 'errconv':
+            # independent of the model: the requester is handed the code and the text the failing side raised, on that stream
+            if case['exc'] == 'protocol':
+                txt = '' if case['none'] else case['text']
+                want = ('runtime %s' if case['code'] == 0x201 else 'protocol:%d %%s' % case['code']) % FR.hx(txt.encode('utf-8'))
+            else:
+                want = 'runtime %s' % FR.hx(bytes.fromhex(obs['str']))
+            sid = obs['dec'].split(' ')[1] if obs['dec'].startswith('ERROR ') else None
+            if sid != 'sid=%d' % case['sid']:
+                fails.append({'signature': 'error-conversion:stream', 'what': 'the ERROR frame for a failure on stream %d decodes as %s' % (case['sid'], obs['dec'][:80])})
+            elif obs['peer'] != want:
+                fails.append({'signature': 'error-conversion:' + case['exc'], 'what': 'a %s raised on stream %d reaches the requester as %s instead of %s' % (
+                    case['exc'] if case['exc'] != 'protocol' else 'RSocketProtocolError(%d)' % case['code'], case['sid'], obs['peer'][:100], want[:100])})
         elif case['kind'] == 'backend':
             if obs['ndiffs']:
                 d = obs['diffs'][0]
@@ -546,6 +635,8 @@ class C02(Prop):
             return case['blob'] if len(case['blob']) >= 12 else None
         if case['kind'] == 'reuse':
             return case['how'] + obs['hex']
+        if case['kind'] == 'errconv':
+            return json.dumps([case.get('code'), case['exc'], case['text'], case.get('none')]) if case['text'] else None
         if case['kind'] == 'build':
             return build_line(case) if (case['md'] or case['d'] or case['b'] in ('setup', 'request_n')) else None
         return json.dumps(case['blobs'][:3])
@@ -556,6 +647,8 @@ class C02(Prop):
             yield 'type=' + case['spec']['t']
         if case['kind'] == 'dec':
             yield 'decoded=' + obs['dec'].split(' ')[0]
+        if case['kind'] == 'errconv':
+            yield 'exception=' + case['exc']
         if case['kind'] == 'build':
             yield 'builder=' + case['b']
             yield 'payload-parts=%s/%s' % tuple('None' if case[k] is None else ('empty' if case[k] == '' else 'bytes') for k in ('md', 'd'))
